@@ -77,9 +77,16 @@ def ext_eq(a, b, depth=0):
     return None
 
 
+RLIMIT_PER_MS = 1500  # measured: z3 spends roughly 1.5M resource units per second on these queries
+WALL_SLACK = 4        # the wall-clock limits are only a safety net (x4 the nominal budget)
+
+
 def _check_inproc(pc, goal, axioms, timeout_ms, seed, want_model):
+    """The budget is given to z3 as a deterministic resource limit (rlimit), so that a verdict does not depend on
+    how busy the machine is; the wall-clock timeout is a generous safety net."""
     s = z3.Solver()
-    s.set("timeout", int(timeout_ms))
+    s.set("rlimit", int(timeout_ms * RLIMIT_PER_MS))
+    s.set("timeout", int(timeout_ms * WALL_SLACK))
     s.set("random_seed", seed % (2 ** 31))
     for a in axioms:
         s.add(a)
@@ -189,19 +196,24 @@ def run_forked(tasks, jobs, hard_extra_s=4.0):
     return results
 
 
-def discharge_all(obligations, axioms, timeout_ms=10000, seed=0, jobs=8):
-    """-> {oid: result dict}"""
+def discharge_all(obligations, axioms, timeout_ms=10000, seed=0, jobs=8, single_attempt=()):
+    """-> {oid: result dict}.  single_attempt: (kind, clause) pairs that are recorded known findings - they are
+    expected to fail, so only the first (cheap) round is spent on them."""
     results = {}
-    first_ms = min(timeout_ms, 3000)
-    t1 = [(ob.oid, (lambda ob=ob: _check_inproc(ob.pc, ob.goal, axioms, first_ms, seed, False)), first_ms / 1000.0)
-          for ob in obligations]
+    first_ms = min(timeout_ms, 2500)
+    t1 = [(ob.oid, (lambda ob=ob: _check_inproc(ob.pc, ob.goal, axioms, first_ms, seed, False)),
+           WALL_SLACK * first_ms / 1000.0) for ob in obligations]
     r1 = run_forked(t1, jobs)
     for ob in obligations:
         st, info = r1.get(ob.oid, ("error", {"reason": "no result"}))
         results[ob.oid] = {"status": st, "time": info.get("time", 0.0), "backend": "z3", "parts": 1,
                            "reason": info.get("reason")}
     left = [ob for ob in obligations if results[ob.oid]["status"] != "proved"
+            and (ob.kind, ob.clause) not in single_attempt
             and not z3.is_false(ob.goal)]  # `false` goals (reachability of a forbidden exit) get one attempt
+    for ob in obligations:
+        if (ob.kind, ob.clause) in single_attempt and results[ob.oid]["status"] != "proved":
+            results[ob.oid]["failed_part"] = "(recorded known finding: one attempt only)"
     for ob in obligations:
         if z3.is_false(ob.goal) and results[ob.oid]["status"] != "proved":
             results[ob.oid]["failed_part"] = "false  (the path reaching this point is not refuted)"
@@ -229,10 +241,10 @@ def discharge_all(obligations, axioms, timeout_ms=10000, seed=0, jobs=8):
             for k, (hyps, g) in enumerate(parts):
                 key = f"{ob.oid}#{rnd}.{k}"
                 meta[key] = (ob, k, hyps, g)
-                tmo = timeout_ms * (3 if ext else 1)
+                tmo = timeout_ms * (2 if ext else 1)
                 tasks.append((key, (lambda ob=ob, hyps=hyps, g=g, tmo=tmo: _check_inproc(list(ob.pc) + hyps, g, axioms,
                                                                                          tmo, seed, True)),
-                              tmo / 1000.0))
+                              WALL_SLACK * tmo / 1000.0))
         r = run_forked(tasks, max(2, jobs // 2) if ext else jobs)
         per_ob = {}
         for key, (st, info) in r.items():
